@@ -134,7 +134,9 @@ def build_all():
 
 # --------------------------------------------------------------------------- proof audit
 
-FORBIDDEN = re.compile(r"\b(Admitted|admit|Axiom|Axioms|Parameter|Parameters|Conjecture|Hypothesis|Variable)\b|Unset\s+Guard|bypass_check|type-in-type|impredicative-set|Admit\s+Obligations")
+FORBIDDEN = re.compile(r"\b(Admitted|admit|Axiom|Axioms|Parameter|Parameters|Conjecture|Conjectures|Hypothesis|Hypotheses|Variable|Variables|Context)\b|Unset\s+Guard|bypass_check|type-in-type|impredicative-set|Admit\s+Obligations|Unset\s+Positivity|Unset\s+Universe")
+SECTION_LOCAL = {"Hypothesis", "Hypotheses", "Variable", "Variables", "Context"}
+SECTION_EVENT = re.compile(r"^\s*(Section|Module\s+Type|Module|End)\s+(\w+)\s*\.", re.M)
 
 
 def strip_comments(text):
@@ -159,8 +161,30 @@ def grep_forbidden():
     bad = []
     for path in glob.glob(os.path.join(COQ, "**", "*.v"), recursive=True):
         txt = strip_comments(open(path).read())
-        # Section-local Variable/Hypothesis are allowed only inside Sections; we use none at all
+        # Variable/Hypothesis/Context are section-local assumptions (discharged at End) and allowed
+        # only while a Section is open; outside one they declare axioms.  Module Types are not used.
+        events = []   # (offset, depth of open Sections after the event)
+        stack = []
+        for m in SECTION_EVENT.finditer(txt):
+            kind, name = m.group(1), m.group(2)
+            if kind == "Section":
+                stack.append(name)
+            elif kind == "End" and stack and stack[-1] == name:
+                stack.pop()
+            elif kind.startswith("Module"):
+                if "Type" in kind:
+                    bad.append("%s:%d:Module Type" % (os.path.relpath(path, ROOT), txt.count("\n", 0, m.start()) + 1))
+            events.append((m.start(), len(stack)))
+        def in_section(off):
+            d = 0
+            for o, depth in events:
+                if o > off:
+                    break
+                d = depth
+            return d > 0
         for m in FORBIDDEN.finditer(txt):
+            if m.group(0) in SECTION_LOCAL and in_section(m.start()):
+                continue
             line = txt.count("\n", 0, m.start()) + 1
             bad.append("%s:%d:%s" % (os.path.relpath(path, ROOT), line, m.group(0)))
     return bad
